@@ -308,11 +308,19 @@ def part_errors(ctx):
                 ctx.disagree('error class differs from the model', case, want, o)
 
 
+def part_author_entries(ctx):
+    """the author's own sum is accepted whichever entries the student is asked to re-enter, also when the author's other entries use an instructor
+    variable (shared with C09: every subset of input boxes; honest entries accepted, entries naming the instructor variable refused)"""
+    from props import c09
+    c09.part_partial_positions(ctx)
+
+
 def run(ctx):
     part_perform(ctx)
     part_grader(ctx)
     part_sampled_functions(ctx)
     part_errors(ctx)
+    part_author_entries(ctx)
 
 
 def search(ctx):
